@@ -1,4 +1,5 @@
 import LasioModel.Basic
 import LasioModel.Section
 import LasioModel.Resource
+import LasioModel.HeaderLine
 import LasioModel.Generated
